@@ -209,6 +209,26 @@ Neighbors find_neighbors(NeighborsMethod method, const RandomAccessIterator& beg
         neighbors = find_neighbors_covertree_impl(begin, end, callback, k);
 #endif
 
+    // The tree-based searches rely on the triangle inequality. Distances derived from a kernel,
+    // sqrt(k(x,x) - 2k(x,y) + k(y,y)), can violate it through cancellation (e.g. a linear kernel on
+    // data with a large common offset), and a tree may then come back with fewer than k neighbors
+    // for some vector. Every consumer indexes exactly k neighbors of every vector, so fall back
+    // to the exhaustive search, which does not need a metric.
+    if (!method.is(Brute))
+    {
+        for (Neighbors::const_iterator iter = neighbors.begin(); iter != neighbors.end(); ++iter)
+        {
+            if (static_cast<IndexType>(iter->size()) != k)
+            {
+                Logging::instance().message_warning("The " + get_neighbors_method_name(method) +
+                                                    " search returned an incomplete neighborhood (the distance is not "
+                                                    "a metric numerically). Using the exhaustive search instead.");
+                neighbors = find_neighbors_bruteforce_impl(begin, end, callback, k);
+                break;
+            }
+        }
+    }
+
     if (check_connectivity && !is_connected(begin, end, neighbors))
     {
         const std::string message = fmt::format("The neighborhood graph with {} neighbors "
